@@ -1708,13 +1708,17 @@ func c11SubdirRemap(c *Ctx, pk *packages.Package) {
 		if !isStrSlice(sig.Params().At(1).Type()) || !isStrSlice(sig.Params().At(2).Type()) || !isStrSlice(sig.Results().At(0).Type()) || !isStrSlice(sig.Results().At(1).Type()) {
 			continue
 		}
-		joins := false
-		for _, call := range callsDeep(sf) {
-			if calleeIs(staticCalleeObj(call.Call), "private/pkg/normalpath", "Join") {
-				joins = true
+		callsJoin := func(f *ssa.Function) bool {
+			for _, g := range reachSSA(f, 2) {
+				for _, call := range callsIn(g) {
+					if calleeIs(staticCalleeObj(call.Call), "private/pkg/normalpath", "Join") {
+						return true
+					}
+				}
 			}
+			return false
 		}
-		if !joins {
+		if !callsJoin(sf) {
 			continue
 		}
 		found++
@@ -1753,6 +1757,14 @@ func c11SubdirRemap(c *Ctx, pk *packages.Package) {
 						if calleeIs(staticCalleeObj(cc), "private/pkg/normalpath", "Join") {
 							for _, a := range cc.Args {
 								if isSubdir(a) {
+									return true
+								}
+							}
+						}
+						// ... or by a named helper of the module that is given the sub-directory and joins onto it
+						if callee := cc.StaticCallee(); callee != nil && callee.Pkg != nil && strings.HasPrefix(callee.Pkg.Pkg.Path(), modPath) && callee.Blocks != nil {
+							for _, a := range cc.Args {
+								if isSubdir(a) && callsJoin(callee) {
 									return true
 								}
 							}
